@@ -102,8 +102,6 @@ def enumerate_cases(tier, rng):
     for mn in mnemonics:
         for shape in SHAPES:
             for suffix in ("", "b", "w", "l"):
-                if shape == "" and suffix:
-                    continue
                 vals = values_all if tier == "thorough" else ([0x10, 0x100, 0x10000] if not suffix else [0x12])
                 if shape == "":
                     vals = [0]
